@@ -190,3 +190,16 @@ Proof.
     rewrite (align_origin_map _ _ _ _ Eo). apply positions_pmul.
 Qed.
 End Proofs.
+
+(* ---------- alignment over all poses (n = None, not scale-only) brings the centroid of the estimate's positions onto
+   the centroid of the reference's positions; with n = Some k it does so for the first k positions ---------- *)
+Theorem align_matches_centroids svd eps (P ref : list PoseR) cs n P' r t c :
+  take n (positions P) <> [] -> @align R _ svd eps P ref cs false n = Some (P', (r, t, c)) ->
+  mean (take n (positions P')) = mean (take n (positions ref)).
+Proof.
+  intros Hne H. destruct (align_applies_result svd eps P ref cs false n P' r t c H) as (U & EP & _).
+  subst P'. rewrite positions_sim.
+  assert (T : take n (map (apply_sim c r t) (positions P)) = map (apply_sim c r t) (take n (positions P))).
+  { destruct n as [k|]; cbn [take]; [apply firstn_map|reflexivity]. }
+  rewrite T. exact (umeyama_aligned_mean svd eps _ _ _ r t c Hne U).
+Qed.
